@@ -5,8 +5,8 @@ EXPL = "exploration"
 PROPS = {}
 
 
-def prop(pid, rule, quick=None, thorough=None, race=False, crash_is_violation=False, assumptions=None, level=EXPL, rlimit_as_gb=None):
-    PROPS[pid] = dict(rule=rule, race=race, crash_is_violation=crash_is_violation, level=level, rlimit_as_gb=rlimit_as_gb,
+def prop(pid, rule, quick=None, thorough=None, race=False, crash_is_violation=False, assumptions=None, level=EXPL, rlimit_as_gb=None, fuzz=None):
+    PROPS[pid] = dict(rule=rule, race=race, crash_is_violation=crash_is_violation, level=level, rlimit_as_gb=rlimit_as_gb, fuzz=fuzz,
                       quick=quick or dict(shards=1, timeout=300), thorough=thorough or dict(shards=16, timeout=1500),
                       assumptions=assumptions or [])
 
@@ -101,7 +101,7 @@ prop("C18",
           "complete mdat, trailing bytes at EOF, init flag = top-level moov header seen, Start = chunk offset; injected errors returned; "
           "termination within 20 s; bounded buffer growth for well-formed streams. Non-trivial = stream with >= 2 callbacks read with a read "
           "boundary inside a box header; distinct by hash of the case.",
-     quick=dict(shards=2, timeout=300), thorough=dict(shards=16, timeout=1500, pct=600),
+     quick=dict(shards=2, timeout=300), thorough=dict(shards=16, timeout=1500, pct=600), fuzz=dict(target="FuzzC18", seconds=150, workers=16),
      assumptions=COMMON + ["declared box sizes above 16 MiB are not generated in-process (allocation from a 4-byte field, see DESIGN)",
                            "a box with size < 8 must make Parse terminate with an error or with everything delivered"])
 
@@ -147,7 +147,7 @@ prop("C11",
           "dropped at the start / repeat changed / inserted in the middle, attributes changed/added/removed, periods appended/dropped, "
           "adaptation sets and representations added/removed, descriptor values changed): old+patch == new; panics are violations, "
           "rejections by the diff are counted. Non-trivial = a patch with >= 2 operations or one that both adds and removes.",
-     quick=dict(shards=2, timeout=400), thorough=dict(shards=16, timeout=1500, pct=400), assumptions=COMMON)
+     quick=dict(shards=2, timeout=400), thorough=dict(shards=16, timeout=1500, pct=400), fuzz=dict(target="FuzzC11Trees", seconds=150, workers=16), assumptions=COMMON)
 
 prop("C10",
      rule="rapid draws (encryptable asset: bundled AVC/AAC assets or generated layouts; video or audio representation incl. re-segmented audio; "
@@ -202,7 +202,7 @@ prop("C08",
           "methods, empty and random bodies, MPD uploads. Oracle: the handler returns within 10 s without panic with a deliberate status, the "
           "channel goroutine drains its queue (hook VerifQuiesce), the process survives, and a well-formed stream uploaded afterwards on a "
           "fresh channel is accepted and stored.",
-     quick=dict(shards=2, timeout=400), thorough=dict(shards=16, timeout=1500, pct=200), crash_is_violation=True, rlimit_as_gb=6,
+     quick=dict(shards=2, timeout=400), thorough=dict(shards=16, timeout=1500, pct=200), fuzz=dict(target="FuzzC08Server", seconds=150, workers=16), crash_is_violation=True, rlimit_as_gb=6,
      assumptions=COMMON + ["traffic patterns are requested at instants in up/down states only (slow/hang sleep by design)",
                            "upload bodies: declared top-level box sizes between 16 MiB and the 32-bit limit are cut to 24 bits (the chunk parser allocates what a header declares, DESIGN O6); "
                            "declared table counts above 10^6 are cut to 10^6 (known finding KF-C08-rx-declared-counts, excluded by construction and counted); Content-Length is honest",
